@@ -188,8 +188,23 @@ def _split_direct(pipeline):
     return None
 
 
-def run_schedule(pipeline, form, n, style, stage, k, limit, bound_live):
-    """Execute one consumer schedule on fresh objects. Returns a dict of observations."""
+STATELESS_KINDS = ("call", "var", "filter", "runif", "print", "context", "upd", "mkfn", "esplit", "split")
+
+
+def stateless(pipeline):
+    def ok(spec):
+        if spec[0] == "split":
+            return all(ok(s) for br in spec[3] for s in br)
+        if spec[0] == "runif":
+            return all(ok(s) for s in spec[2])
+        return spec[0] in STATELESS_KINDS
+    return all(ok(s) for s in pipeline)
+
+
+def run_schedule(pipeline, form, n, style, stage, k, limit, bound_live, warmup=False):
+    """Execute one consumer schedule on fresh objects. Returns a dict of observations.
+    *warmup*: before the schedule, the same pipeline object is run over another flow by a consumer
+    that stops after one result and closes its generator (pipelines without state only)."""
     log = []
     M.SINK.log = log
     obs = {"work_at_build": None, "work_at_run": None, "taken": 0, "status": "ok",
@@ -197,12 +212,38 @@ def run_schedule(pipeline, form, n, style, stage, k, limit, bound_live):
     try:
         els = [M.build_element(spec, log, j + 1) for j, spec in enumerate(pipeline)]
         src = M.Source(n, style, log, limit)
+        holder = [src]
         if form == "seq":
             seq = lena.core.Sequence(*els)
         else:
-            seq = lena.core.Source(lambda: src, *els)
+            seq = lena.core.Source(lambda: holder[0], *els)
         if log:
             obs["work_at_build"] = list(log)
+        if warmup:
+            # an earlier, abandoned run of the same object (its events are not part of the trace judged)
+            wlog = []
+            M.SINK.log = wlog
+            wsrc = M.Source(n, style, wlog, limit)
+            holder[0] = wsrc
+            try:
+                wit = seq.run(wsrc) if form == "seq" else seq()
+                next(wit, None)
+            except (M.Runaway, Exception):  # noqa: no first result to take - judged without warm-up
+                wit = None
+            # the consumer closes its generator: nothing of that flow may be held any longer
+            try:
+                if wit is not None and hasattr(wit, "close"):
+                    wit.close()
+            except (M.Runaway, Exception):  # noqa
+                pass
+            wit = None
+            if wsrc.alive:
+                gc.collect()
+            obs["warm_alive"] = (wsrc.alive, wsrc.i)
+            holder[0] = src
+            M.SINK.log = log
+            del log[:]
+            obs["warm_log_len"] = len(wlog)
         if stage != "built":
             try:
                 it = seq.run(src) if form == "seq" else seq()
@@ -279,8 +320,9 @@ def judge_combo(res, ctx, pipeline, form, n, style, dom, only=None):
     bound_live = M.live_bound(pipeline)
     limit = dom["horizon"] + 8
     sd = _split_direct(pipeline)
+    free_of_state = stateless(pipeline)
     for stage, k in _schedules(pipeline, tables, n, dom):
-        if only is not None and (stage, k) != tuple(only):
+        if only is not None and (stage, k) != tuple(only[:2]):
             continue
         case = dict(base_case, stage=stage, k=k)
         if stage in ("built", "run"):
@@ -294,7 +336,21 @@ def judge_combo(res, ctx, pipeline, form, n, style, dom, only=None):
         if ndis:
             res.count("oracle_crosscheck_disagreements", ndis)
         bound = stages[0]
-        obs = run_schedule(pipeline, form, n, style, stage, k, limit, bound_live)
+        for warm in ((False, True) if (stage in ("take", "end") and free_of_state) else (False,)):
+            if only is not None and len(only) > 2 and bool(only[2]) != warm:
+                continue
+            if warm:
+                case = dict(case, warmup=True)
+                res.count("schedules_after_an_abandoned_run_of_the_same_object")
+            _judge_schedule(res, ctx, case, pipeline, form, n, style, dom, stage, k, limit, bound_live,
+                            stages, bound, sd, tables, warm)
+
+
+def _judge_schedule(res, ctx, case, pipeline, form, n, style, dom, stage, k, limit, bound_live,
+                    stages, bound, sd, tables, warm):
+    """Run and judge one schedule (the body of the loop of judge_combo)."""
+    for _once in (0,):
+        obs = run_schedule(pipeline, form, n, style, stage, k, limit, bound_live, warmup=warm)
         log = obs["log"]
         strict = bound < END
         res.case(nontrivial=(stage == "take" and k >= 1 and strict),
@@ -321,6 +377,10 @@ def judge_combo(res, ctx, pipeline, form, n, style, dom, only=None):
             viol("work-at-run-call", obs["work_at_run"][:6], "no pull, call or print")
         if stage in ("built", "run"):
             continue
+        if warm and obs.get("warm_alive") and obs["warm_alive"][0] > 0:
+            viol("liveness", {"values_of_the_closed_earlier_run_still_alive": obs["warm_alive"][0],
+                              "pulled_in_that_run": obs["warm_alive"][1]}, {"max_alive": 0},
+                 after_closed_run=True)
         status = obs["status"]
         if status.startswith("run-call-"):
             continue        # already reported as work-at-run-call
@@ -418,7 +478,7 @@ def replay(case):
     sys.stdout = M.SINK
     try:
         judge_combo(res, ctx, case["pipeline"], case["form"], case["n"], case["style"], dom,
-                    only=(case["stage"], case["k"]))
+                    only=(case["stage"], case["k"], bool(case.get("warmup"))))
     finally:
         sys.stdout = old
         M.SINK.log = None
